@@ -1,2 +1,4 @@
+import Props.C01
 import Props.C03
+import Props.C05
 import Props.C12
